@@ -203,7 +203,9 @@ func verifHSUnderlayNum(ap netip.AddrPort) uint64 {
 // ---- the world -------------------------------------------------------------------------------------
 
 type VerifHSConfig struct {
-	MyAddrs     []uint64 // my overlay addresses (v2 certificate: all of them, v1 certificate: the first)
+	MyAddrs     []uint64 // my overlay addresses, ascending, IPv4 first (v2 certificate: all of them, v1 certificate: the first)
+	NoV1        bool     // the node holds no v1 certificate
+	NoV2        bool     // the node holds no v2 certificate (then only MyAddrs[0] is certified)
 	Preferred   bool     // preferred_ranges = [172.16.0.0/16]
 	Retries     int64
 	TryInterval time.Duration
@@ -248,7 +250,12 @@ type VerifHSWorld struct {
 	hookMsg   string
 	hook      func()
 	hookFired bool
+
+	own []uint64 // every address of every certificate the node holds
 }
+
+// OwnAddrs: all overlay addresses of all certificates the node holds ("one of its own addresses"), ascending.
+func (w *VerifHSWorld) OwnAddrs() []uint64 { return append([]uint64(nil), w.own...) }
 
 func verifHSMust(err error) {
 	if err != nil {
@@ -287,14 +294,38 @@ func VerifHSNewWorld(cfg VerifHSConfig) *VerifHSWorld {
 		verifHSMust(err)
 		return c
 	}
-	v2 := sign(cert.Version2, nets)
-	v1 := sign(cert.Version1, nets[:1])
+	// the node's own-address tables (Interface.myVpnAddrsTable, myVpnNetworksTable) are whatever the REAL newCertState
+	// derives from the certificates the node holds; the harness / model side uses OwnAddrs(): all addresses of all
+	// certificates held
+	var v1, v2 cert.Certificate
+	if !cfg.NoV2 {
+		v2 = sign(cert.Version2, nets)
+	}
+	if !cfg.NoV1 {
+		v1 = sign(cert.Version1, nets[:1])
+	}
+	if v1 == nil && v2 == nil {
+		panic("verif hsmgr: a node without certificate")
+	}
 	dv := cert.Version2
 	if cfg.InitiateV1 {
 		dv = cert.Version1
 	}
 	cs, err := newCertState(dv, v1, v2, false, cert.Curve_CURVE25519, priv, "aes")
 	verifHSMust(err)
+	seenOwn := map[uint64]bool{}
+	for _, c := range []cert.Certificate{v1, v2} {
+		if c == nil {
+			continue
+		}
+		for _, n := range c.Networks() {
+			if a := verifHSAddrNum(n.Addr()); !seenOwn[a] {
+				seenOwn[a] = true
+				w.own = append(w.own, a)
+			}
+		}
+	}
+	sort.Slice(w.own, func(i, j int) bool { return w.own[i] < w.own[j] })
 	pki := &PKI{l: l}
 	pki.cs.Store(cs)
 	pki.caPool.Store(pool)
@@ -329,7 +360,7 @@ func VerifHSNewWorld(cfg VerifHSConfig) *VerifHSWorld {
 	}
 	w.hsm = NewHandshakeManager(l, w.hm, lh, w.rec, hcfg)
 
-	fw := NewFirewall(l, 12*time.Minute, 3*time.Minute, 10*time.Minute, v2)
+	fw := NewFirewall(l, 12*time.Minute, 3*time.Minute, 10*time.Minute, cs.GetDefaultCertificate())
 	for _, p := range cfg.AllowPorts {
 		verifHSMust(fw.AddRule(false, firewall.ProtoUDP, int32(p), int32(p), nil, "any", "", "", "", ""))
 	}
